@@ -12,7 +12,9 @@
                                               recentlySent/priority in the code — is an arbitrary
                                               input [choice] here: the theorems quantify over it)
      Channel.recvPacketMsg                 -> recv_packet_msg   (capacity check BEFORE the append,
-                                              deliver on EOF, buffer reset)
+                                              deliver on EOF, buffer reset; ch.recving is a Go
+                                              slice that is nil or not: recvRoutine delivers
+                                              only `msgBytes != nil`)
      MConnection.recvRoutine dispatch      -> recv_item         (ping/pong, unknown channel, unknown
                                               packet type, oversize/undecodable -> stopForError)
    The protobuf framing is not modelled: whether a raw packet is over the reader's size limit
@@ -135,25 +137,52 @@ Fixpoint send_to (chs : list schan) (c : Z) (m : bytes) : list schan * bool :=
 
 (* ================================================================== layer A: receiver *)
 
+(* A Go byte slice as far as this code can tell two slices apart: nil (None) or not (Some
+   contents).  recvRoutine tests `msgBytes != nil`, so the difference between a nil and an empty
+   non-nil buffer decides whether a zero-length message reaches onReceive.  cap() is not part of
+   the model: no path of recvPacketMsg/recvRoutine reads it (the buffer may be re-allocated by
+   append when a message outgrows RecvBufferCapacity; contents and nil-ness are what matters). *)
+Definition goslice := option bytes.
+Definition sl_bytes (s : goslice) : bytes := match s with Some b => b | None => [] end.
+(* append(s, d...): appending nothing to nil gives nil, everything else is non-nil *)
+Definition go_append (s : goslice) (d : bytes) : goslice :=
+  match s with
+  | Some b => Some (b ++ d)
+  | None => match d with [] => None | _ :: _ => Some d end
+  end.
+(* s[:0]: nil[:0] is nil, a non-nil slice stays non-nil *)
+Definition go_reslice0 (s : goslice) : goslice :=
+  match s with Some _ => Some [] | None => None end.
+
 Record rchan := {
   rc_id : Z;
   rc_cap : Z;                  (* desc.RecvMessageCapacity *)
-  rc_recving : bytes           (* ch.recving *)
+  rc_buf : goslice             (* ch.recving *)
 }.
+(* the bytes of ch.recving (len(nil) = 0) *)
+Definition rc_recving (ch : rchan) : bytes := sl_bytes (rc_buf ch).
 
+(* what one call of recvPacketMsg means to recvRoutine *)
 Inductive recv_result :=
-| RErr                         (* "received message exceeds available capacity" *)
-| RNone                        (* packet absorbed, message not complete *)
-| RMsg (m : bytes).            (* message complete: delivered to onReceive *)
+| RErr                         (* (nil, err): "received message exceeds available capacity" *)
+| RNone                        (* (nil, nil): recvRoutine's `if msgBytes != nil` skips onReceive —
+                                  packet absorbed and message not complete, OR message complete
+                                  but the reassembled slice is nil *)
+| RMsg (m : bytes).            (* (msgBytes != nil, nil): delivered to onReceive *)
 
-(* recvPacketMsg *)
+(* recvPacketMsg:
+     if RecvMessageCapacity < len(ch.recving)+len(packet.Data) { return nil, err }
+     ch.recving = append(ch.recving, packet.Data...)
+     if packet.EOF { msgBytes := ch.recving; ch.recving = ch.recving[:0]; return msgBytes, nil }
+     return nil, nil *)
 Definition recv_packet_msg (ch : rchan) (eof : bool) (data : bytes) : rchan * recv_result :=
   let received := Z.of_nat (length (rc_recving ch)) + Z.of_nat (length data) in
   if rc_cap ch <? received then (ch, RErr)
   else
-    let buf := rc_recving ch ++ data in
-    if eof then ({| rc_id := rc_id ch; rc_cap := rc_cap ch; rc_recving := [] |}, RMsg buf)
-    else ({| rc_id := rc_id ch; rc_cap := rc_cap ch; rc_recving := buf |}, RNone).
+    let buf := go_append (rc_buf ch) data in
+    if eof then ({| rc_id := rc_id ch; rc_cap := rc_cap ch; rc_buf := go_reslice0 buf |},
+                 match buf with Some m => RMsg m | None => RNone end)
+    else ({| rc_id := rc_id ch; rc_cap := rc_cap ch; rc_buf := buf |}, RNone).
 
 (* what recvRoutine can read from the connection *)
 Inductive witem :=
@@ -211,7 +240,8 @@ Definition recv_item (r : receiver) (it : witem) : receiver :=
 Definition recv_items (r : receiver) (l : list witem) : receiver := fold_left recv_item l r.
 
 Definition new_receiver (descs : list (Z * Z)) : receiver :=
-  {| r_chans := map (fun d => {| rc_id := fst d; rc_cap := snd d; rc_recving := [] |}) descs;
+  (* newChannel: recving = make([]byte, 0, desc.RecvBufferCapacity) — empty and NOT nil *)
+  {| r_chans := map (fun d => {| rc_id := fst d; rc_cap := snd d; rc_buf := Some [] |}) descs;
      r_stopped := false; r_delivered := [] |}.
 
 (* is this item, arriving at receiver r, one that the property calls bad input? *)
